@@ -10,6 +10,8 @@ import (
 	"math"
 	"math/big"
 	"math/rand"
+	"strconv"
+	"strings"
 
 	"github.com/aclements/go-moremath/stats"
 )
@@ -182,22 +184,23 @@ func sbigF(x float64) (sbig, bool) {
 }
 
 type streamEvent struct {
-	Op   string `json:"op"`
-	A    int    `json:"a"`
-	B    int    `json:"b"`
-	V    int64  `json:"v"`
-	N    int64  `json:"n"`
-	Ok   int    `json:"ok"` // 1: tot/mn/mx are integer valued as expected for integer data
-	Tot  sbig   `json:"tot"`
-	Mn   sbig   `json:"mn"`
-	Mx   sbig   `json:"mx"`
-	Mean fdy    `json:"mean"`
-	Var  fdy    `json:"var"`
-	Sd   fdy    `json:"sd"`
-	Rms  fdy    `json:"rms"`
-	Barg int    `json:"barg"` // Combine: 1 iff the argument accumulator is bit-identical afterwards
-	Seed int64  `json:"seed"`
-	Idx  int    `json:"idx"`
+	Op   string    `json:"op"`
+	A    int       `json:"a"`
+	B    int       `json:"b"`
+	V    int64     `json:"v"`
+	N    int64     `json:"n"`
+	Ok   int       `json:"ok"` // 1: tot/mn/mx are integer valued as expected for integer data
+	Tot  sbig      `json:"tot"`
+	Mn   sbig      `json:"mn"`
+	Mx   sbig      `json:"mx"`
+	Mean fdy       `json:"mean"`
+	Var  fdy       `json:"var"`
+	Sd   fdy       `json:"sd"`
+	Rms  fdy       `json:"rms"`
+	Rep  []repItem `json:"rep"`  // String() split into name=value items (names lower-cased)
+	Barg int       `json:"barg"` // Combine: 1 iff the argument accumulator is bit-identical afterwards
+	Seed int64     `json:"seed"`
+	Idx  int       `json:"idx"`
 }
 
 func streamRecord(out io.Writer, args []string) error {
@@ -212,7 +215,7 @@ func streamRecord(out io.Writer, args []string) error {
 		}
 		rng := rand.New(rand.NewSource(*seed*1000003 + int64(idx)))
 		if err := enc.Encode(streamEvent{Op: "Reset", Seed: *seed, Idx: idx, Tot: sbig{0, []int{}}, Mn: sbig{0, []int{}}, Mx: sbig{0, []int{}},
-			Mean: mkfdy(math.NaN()), Var: mkfdy(math.NaN()), Sd: mkfdy(math.NaN()), Rms: mkfdy(math.NaN())}); err != nil {
+			Mean: mkfdy(math.NaN()), Var: mkfdy(math.NaN()), Sd: mkfdy(math.NaN()), Rms: mkfdy(math.NaN()), Rep: []repItem{}}); err != nil {
 			return err
 		}
 		const nacc = 6
@@ -249,7 +252,7 @@ func streamRecord(out io.Writer, args []string) error {
 					// repeated merging doubles the counts; keep them inside the trace spec's 32-bit integers
 					acc[a] = stats.StreamStats{}
 					enc.Encode(streamEvent{Op: "Clear", A: a, Seed: *seed, Idx: idx, Tot: sbig{0, []int{}}, Mn: sbig{0, []int{}}, Mx: sbig{0, []int{}},
-						Mean: mkfdy(math.NaN()), Var: mkfdy(math.NaN()), Sd: mkfdy(math.NaN()), Rms: mkfdy(math.NaN())})
+						Mean: mkfdy(math.NaN()), Var: mkfdy(math.NaN()), Sd: mkfdy(math.NaN()), Rms: mkfdy(math.NaN()), Rep: []repItem{}})
 				}
 				before := acc[b]
 				acc[a].Combine(&acc[b])
@@ -276,7 +279,34 @@ func streamRecord(out io.Writer, args []string) error {
 	return nil
 }
 
+type repItem struct {
+	K string `json:"k"`
+	V fdy    `json:"v"`
+}
+
+// streamReport splits the textual report into its name=value items.
+func streamReport(txt string) []repItem {
+	out := []repItem{}
+	for _, f := range strings.Fields(txt) {
+		k, v, ok := strings.Cut(f, "=")
+		if !ok {
+			continue
+		}
+		x, err := strconv.ParseFloat(strings.TrimRight(v, ",;"), 64)
+		if err != nil {
+			continue
+		}
+		k = strings.ToLower(k)
+		if k == "sum" {
+			k = "total"
+		}
+		out = append(out, repItem{k, mkfdy(x)})
+	}
+	return out
+}
+
 func streamFill(ev *streamEvent, s *stats.StreamStats) {
+	ev.Rep = streamReport(s.String())
 	ev.N = int64(s.Count)
 	ok1, ok2, ok3 := false, false, false
 	ev.Tot, ok1 = sbigF(s.Total)
